@@ -254,6 +254,10 @@ func genC18(r *gen.Rand) *C18Case {
 	if r.Chance(0.3) {
 		c.Args = append([]string{"-f", r.Pick("json", "yaml")}, c.Args...)
 	}
+	if (c.Vector == "input-dotdot" || c.Vector == "virtual-ext") && r.Chance(0.4) {
+		// the single-file path (MergeFile) must be confined as well
+		c.Args = append([]string{"-P"}, c.Args...)
+	}
 	if c.Benign || c.RootAll {
 		for _, a := range c.Args {
 			if a == "-r" {
